@@ -29,6 +29,12 @@ def runLedger (c : Case) : Res :=
     -- the C02 rule is only evaluated on complete runs (a failed run may end inside a window)
     let os := if os.isEmpty && p.implOutcome == "ok" && r.tags.all (· != "near=1") then
                 sflOracle p.dflt p.init (alignedRows p.txs p.impls) else os
+    -- a run rejected for the specified-amount tolerance
+    let os := if os.isEmpty && p.implOutcome == "err" && (p.implMsg.splitOn "max allowed discrepancy").length > 1 then
+                let done := alignedRows p.txs p.impls
+                let k := (done.filter (fun (_, x) => !x.gen)).length
+                sflTolRejectOracle p.dflt p.init (done.map (·.1) ++ p.txs.drop k) done.length
+              else os
     if os.isEmpty then r
     else
       let props := String.intercalate "," (os.map (·.1)).eraseDups
